@@ -161,7 +161,7 @@ struct SeqRun {
     void emit(int nmain) {
         vt::Arr a;
         for (size_t i = 0; i < ops.size(); i++)
-            a.raw(vt::Arr().i(ops[i].kind).i(ops[i].a).i(ops[i].b).i(ops[i].c).i(res[i].res).i(res[i].x).i(res[i].y).str());
+            a.raw(vt::Arr().i(ops[i].kind).i(ops[i].a).i(ops[i].b).i(ops[i].c).i(res[i].res).str());     // [kind, a, b, c, result]
         vt::Ev("Seq").i("M", W.M).i("n", nmain).raw("ops", a.str());
     }
 };
